@@ -251,7 +251,7 @@ def run(tier, rng):
     seen_sig = set()
     for h, i, m in zip(hist, impl_out, model_out):
         if i != m:
-            small = ddmin_batch(h, disagree_many) if len(seen_sig) < 6 else h
+            small = ddmin_batch(h, disagree_many) if len(seen_sig) < 3 else h
             small = fix_handles(small)
             sig = 'history:' + show(small)
             if sig in seen_sig:
@@ -262,7 +262,7 @@ def run(tier, rng):
                 f'but the DB-API model gives {model_many([small], tag="c10s")[0]}',
                 {'history': small, 'impl': run_impl(small), 'model': model_many([small], tag='c10s')[0]},
                 signature=sig))
-            if len(seen_sig) >= 12:
+            if len(seen_sig) >= 3:
                 break
     ncol, bad, direct = column_cases()
     for lab, i, m in bad[:1]:
